@@ -241,6 +241,7 @@ fn base_archive(codec: u8, root: MDir) -> MArchive {
         leaves: Vec::new(),
         meta_plain: b"{}".to_vec(),
         meta_codec_override: None,
+        meta_raw_stream: None,
         data: vec![7u8; 64],
         fix_header: true,
         header_over: Vec::new(),
@@ -384,6 +385,31 @@ pub fn crafted(rng: &mut Rng, codecs: &[u8], small_only: bool) -> Vec<(String, S
         // oversized declared lengths
         let a = base_archive(codec, dir_with(2, &[1, 1], &[1, 1], &[u64::from(u32::MAX), u64::from(u32::MAX)], &[1, 5]));
         add("oversized-length", format!("{cn}: tile length 2^32-1 in a 64-byte data section"), &a, rng);
+        // many entries whose declared lengths add up to tens of GiB (a re-write must not reserve their sum)
+        {
+            let n = 12usize;
+            let ids: Vec<u64> = (0..n as u64).map(|i| if i == 0 { 1 } else { 2 }).collect();
+            let offs: Vec<u64> = (0..n as u64).map(|i| 1 + i * 3).collect();
+            let a = base_archive(codec, dir_with(n as u64, &ids, &vec![1; n], &vec![u64::from(u32::MAX); n], &offs));
+            add("oversized-length", format!("{cn}: twelve tiles of declared length 2^32-1 (48 GiB in total) in a 64-byte data section"), &a, rng);
+            let n = 3000usize;
+            let ids: Vec<u64> = (0..n as u64).map(|i| if i == 0 { 1 } else { 2 }).collect();
+            let offs: Vec<u64> = (0..n as u64).map(|i| 1 + i % 60).collect();
+            let a = base_archive(codec, dir_with(n as u64, &ids, &vec![1; n], &vec![1 << 30; n], &offs));
+            add("oversized-length", format!("{cn}: 3000 tiles of declared length 2^30 (3 TiB in total) in a 64-byte data section"), &a, rng);
+        }
+        // zstd frames that declare an absurd content size in their header
+        if codec == R::C_ZSTD {
+            let plain = dir_with(1, &[1], &[1], &[5], &[1]).encode_plain();
+            for declared in [1u64 << 60, 1 << 40, (1 << 32) + 5, u64::MAX - 1, plain.len() as u64 + 1] {
+                let mut a = base_archive(codec, dir_with(1, &[1], &[1], &[5], &[1]));
+                a.root.raw_stream = Some(hostile::zstd_frame_declaring(declared, &plain));
+                add("declared-content-size", format!("{cn}: root directory frame declares {declared} bytes of content"), &a, rng);
+                let mut a = base_archive(codec, dir_with(1, &[1], &[1], &[5], &[1]));
+                a.meta_raw_stream = Some(hostile::zstd_frame_declaring(declared, b"{}"));
+                add("declared-content-size", format!("{cn}: metadata frame declares {declared} bytes of content"), &a, rng);
+            }
+        }
         // run lengths beyond the budget (outside the claim; shows the classifier at work)
         let a = base_archive(codec, dir_with(1, &[1], &[u64::from(u32::MAX)], &[5], &[1]));
         add("huge-run", format!("{cn}: run length 2^32-1"), &a, rng);
@@ -461,6 +487,9 @@ pub fn crafted_dirs() -> Vec<(String, Vec<u8>)> {
         b
     }));
     v.push((String::from("empty"), Vec::new()));
+    for declared in [1u64 << 60, 1 << 40, (1 << 32) + 5, u64::MAX - 1, 3] {
+        v.push((format!("zstd frame declaring {declared} content bytes"), hostile::zstd_frame_declaring(declared, &[1, 1, 1, 5, 1])));
+    }
     v.push((String::from("length zero"), dir_with(1, &[0], &[1], &[0], &[1]).encode_plain()));
     v
 }
